@@ -29,6 +29,110 @@ type walker struct {
 	ids    map[addrKey]int
 	ignore map[string]bool
 	nodes  int
+
+	// Snapshot mode: the text is cut into segments, each scalar leaf (number,
+	// bool, string, byte slice) being a segment of its own labelled with its
+	// type-level path (field names, "[]" for elements; no indices, no keys).
+	snap *Snap
+	path []string
+}
+
+// Snap is a fingerprint whose scalar leaves can be left out by path
+// afterwards.  Structure (pointer identities, lengths, capacities, the order
+// of list nodes) is never a leaf.
+type Snap struct {
+	segs []seg
+}
+
+type seg struct {
+	text string
+	path string // "" for structure
+	num  bool   // an integer leaf
+}
+
+// Snapshot is Of, keeping the leaves apart.
+func Snapshot(v any, ignore ...string) *Snap {
+	w := &walker{ids: map[addrKey]int{}, ignore: map[string]bool{}, snap: &Snap{}}
+	for _, n := range ignore {
+		w.ignore[n] = true
+	}
+
+	w.walk(reflect.ValueOf(v))
+	w.flush("")
+
+	return w.snap
+}
+
+// Key returns the fingerprint without the leaves at the given paths.
+func (s *Snap) Key(without map[string]bool) string {
+	var b strings.Builder
+	for _, g := range s.segs {
+		if g.path != "" && without[g.path] {
+			b.WriteByte('_')
+
+			continue
+		}
+
+		b.WriteString(g.text)
+	}
+
+	return b.String()
+}
+
+// IntLeaves returns, per path, the concatenation of the integer leaves at that
+// path.
+func (s *Snap) IntLeaves() map[string]string {
+	m := map[string]string{}
+	for _, g := range s.segs {
+		if g.path != "" && g.num {
+			m[g.path] += g.text + ","
+		}
+	}
+
+	return m
+}
+
+// flush ends the current segment; path is "" for structure.
+func (w *walker) flush(path string) {
+	if w.snap == nil || w.b.Len() == 0 {
+		return
+	}
+
+	w.snap.segs = append(w.snap.segs, seg{text: w.b.String(), path: path})
+	w.b.Reset()
+}
+
+// leaf writes one scalar leaf.
+func (w *walker) leaf(text string) {
+	if w.snap == nil {
+		w.b.WriteString(text)
+
+		return
+	}
+
+	w.flush("")
+	w.b.WriteString(text)
+	w.flush(strings.Join(w.path, "."))
+}
+
+// intLeaf writes one integer leaf.
+func (w *walker) intLeaf(text string) {
+	w.leaf(text)
+	if w.snap != nil {
+		w.snap.segs[len(w.snap.segs)-1].num = true
+	}
+}
+
+func (w *walker) push(name string) {
+	if w.snap != nil {
+		w.path = append(w.path, name)
+	}
+}
+
+func (w *walker) pop() {
+	if w.snap != nil {
+		w.path = w.path[:len(w.path)-1]
+	}
 }
 
 const maxNodes = 20000
@@ -74,17 +178,17 @@ func (w *walker) walk(v reflect.Value) {
 
 	switch v.Kind() {
 	case reflect.Bool:
-		w.b.WriteString(strconv.FormatBool(v.Bool()))
+		w.leaf(strconv.FormatBool(v.Bool()))
 	case reflect.Int, reflect.Int8, reflect.Int16, reflect.Int32, reflect.Int64:
-		w.b.WriteString(strconv.FormatInt(v.Int(), 10))
+		w.intLeaf(strconv.FormatInt(v.Int(), 10))
 	case reflect.Uint, reflect.Uint8, reflect.Uint16, reflect.Uint32, reflect.Uint64, reflect.Uintptr:
-		w.b.WriteString(strconv.FormatUint(v.Uint(), 10))
+		w.intLeaf(strconv.FormatUint(v.Uint(), 10))
 	case reflect.Float32, reflect.Float64:
-		w.b.WriteString(strconv.FormatFloat(v.Float(), 'g', -1, 64))
+		w.leaf(strconv.FormatFloat(v.Float(), 'g', -1, 64))
 	case reflect.Complex64, reflect.Complex128:
-		fmt.Fprint(&w.b, v.Complex())
+		w.leaf(fmt.Sprint(v.Complex()))
 	case reflect.String:
-		w.b.WriteString(strconv.Quote(v.String()))
+		w.leaf(strconv.Quote(v.String()))
 	case reflect.Func:
 		if v.IsNil() {
 			w.b.WriteString("func:nil")
@@ -153,11 +257,13 @@ func (w *walker) walk(v reflect.Value) {
 		w.walkBody(v)
 	case reflect.Array:
 		w.b.WriteByte('[')
+		w.push("[]")
 		for i := 0; i < v.Len(); i++ {
 			w.walk(v.Index(i))
 			w.b.WriteByte(',')
 		}
 
+		w.pop()
 		w.b.WriteByte(']')
 	case reflect.Slice:
 		if v.IsNil() {
@@ -175,14 +281,17 @@ func (w *walker) walk(v reflect.Value) {
 		}
 
 		fmt.Fprintf(&w.b, "slice%s(%d/%d)[", base, v.Len(), v.Cap())
+		w.push("[]")
 		if v.Type().Elem().Kind() == reflect.Uint8 {
-			w.b.WriteString(strconv.Quote(string(v.Bytes())))
+			w.leaf(strconv.Quote(string(v.Bytes())))
 		} else {
 			for i := 0; i < v.Len(); i++ {
 				w.walk(v.Index(i))
 				w.b.WriteByte(',')
 			}
 		}
+
+		w.pop()
 
 		w.b.WriteByte(']')
 	case reflect.Map:
@@ -209,12 +318,15 @@ func (w *walker) walk(v reflect.Value) {
 
 		sort.Slice(kvs, func(i, j int) bool { return kvs[i].k < kvs[j].k })
 		fmt.Fprintf(&w.b, "map(%d){", len(kvs))
+		w.push("[]")
 		for _, e := range kvs {
 			w.b.WriteString(e.k)
 			w.b.WriteString("=>")
 			w.walk(e.v)
 			w.b.WriteByte(';')
 		}
+
+		w.pop()
 
 		w.b.WriteByte('}')
 	default:
@@ -240,9 +352,29 @@ func (w *walker) walkBody(v reflect.Value) {
 		}
 
 		w.b.WriteString(name + ":")
+		w.push(name)
 		w.walk(v.Field(i))
+		w.pop()
 		w.b.WriteByte(' ')
 	}
 
 	w.b.WriteByte('}')
+}
+
+// Join concatenates fingerprints taken in separate walks (pointer numbers are
+// local to each walk).  A nil Snap stands for an absent object.
+func Join(snaps ...*Snap) *Snap {
+	j := &Snap{}
+	for _, s := range snaps {
+		if s == nil {
+			j.segs = append(j.segs, seg{text: "-||"})
+
+			continue
+		}
+
+		j.segs = append(j.segs, s.segs...)
+		j.segs = append(j.segs, seg{text: "||"})
+	}
+
+	return j
 }
